@@ -220,3 +220,13 @@ def decomposition_facts(o):
 def built_from_fields(o, y, m, d):
     """facts for an ordinal o == ord(y, m, d) built from valid fields: its decomposition is (y, m, d)"""
     return [year_of(o) == y, month_of(o) == m, day_of(o) == d]
+
+
+# str(int): an uninterpreted function (decimal text); its digits matter only for the few obligations about the text
+# itself, which add the defining instance int_str(i) == z3 IntToStr explicitly (see int_str_def)
+int_str = z3.Function('py_int_str', I, S)
+
+
+def int_str_def(i):
+    """defining fact of int_str at i (SMT-LIB str.from_int with a sign)"""
+    return int_str(i) == z3.If(i >= 0, z3.IntToStr(i), z3.Concat(z3.StringVal('-'), z3.IntToStr(-i)))
